@@ -217,6 +217,9 @@ m("C16", "compression/zstd.py", "                    if not decompressor.eof:\n 
 m("C17", "data/codec.py", "                    data = decoder.decode(b'', final=True)\n                    observer.on_next(data)", "                    pass", "fire", ["CD-1"])
 m("C17", "data/codec.py", "def decode(encoding='utf8', incremental=True):", "def decode(encoding='utf8', incremental=False):", "fire", ["CD-1"])
 # ---------------------------------------------------------------- C18
+m("C18", "container/csv.py", "        mode = 'w'\n        if encoding is not None:", "        mode = None\n        if encoding is not None:", "fire", ["CS-5"], "the dump_to_file defect repaired by 95200ca, re-introduced")
+m("C18", "container/csv.py", "        mode = 'w'\n        if encoding is not None:\n            mode = 'wb'", "        mode = 'wb'", "fire", ["CS-5"], "always binary")
+m("C18", "container/csv.py", "        mode = 'w'\n        if encoding is not None:\n            mode = 'wb'", "        mode = 'wb' if encoding is not None else 'wt'", "silent")
 m('C18', 'container/csv.py', "    if type_repr in ['int', int]:\n        return parse_int", "    if type_repr in ['int', int]:\n        return parse_decimal", 'fire', ['CS-1', 'CS-3'], 'hand mutant: int columns parsed as float')
 m('C18', 'container/csv.py', "    if type_repr in ['float', float]:\n        return parse_decimal", "    if type_repr in ['float', float]:\n        return parse_int", 'fire', ['CS-1', 'CS-3'], 'hand mutant: float columns parsed as int')
 m('C18', 'container/csv.py', "    elif type_repr in ['str', str]:\n        return lambda i: i", "    elif type_repr in ['str', str]:\n        return lambda i: i.strip()", 'fire', ['CS-1', 'CS-3'], 'hand mutant: str fields stripped')
